@@ -108,13 +108,14 @@ def compile_ir(path, defs, work, opt='-O1', tag=None, overlay_rules=True, ubsan=
     if overlay_rules:
         src = overlay.apply(path, work)  # returns scratch copy (or the original) ; raises on rule mismatch
     extra = ['-I', os.path.dirname(path)] if src != path else []
+    hdr = [x for d in overlay.header_include_dirs(SRC, work) for x in ('-I', d)]   # patched headers (clang-14 normalisations) shadow the originals
     key_base = sha(path + ' '.join(flags))
     with _ir_lock:
         lk = _ir_locks.setdefault(key_base, threading.Lock())
     with lk:
         if key_base in _ir_memo:
             return _ir_memo[key_base]
-        rc, pre, _, _ = run(['clang++-14'] + flags + extra + ['-E', '-P', src], timeout=300)
+        rc, pre, _, _ = run(['clang++-14'] + hdr + flags + extra + ['-E', '-P', src], timeout=300)
         if rc != 0:
             raise Inconclusive('preprocess failed for %s:\n%s' % (path, pre[-3000:]))
         key = sha(pre + ' '.join(flags) + 'v3')
@@ -122,7 +123,7 @@ def compile_ir(path, defs, work, opt='-O1', tag=None, overlay_rules=True, ubsan=
         cpath = os.path.join(CACHE, key + '.ll')
         if not os.path.exists(cpath):
             tmp = cpath + '.%d.tmp' % os.getpid()
-            rc, out, _, _ = run(['clang++-14'] + flags + extra + ['-S', '-emit-llvm', src, '-o', tmp], timeout=900)
+            rc, out, _, _ = run(['clang++-14'] + hdr + flags + extra + ['-S', '-emit-llvm', src, '-o', tmp], timeout=900)
             if rc != 0:
                 raise Inconclusive('clang IR compile failed for %s:\n%s' % (path, out[-4000:]))
             os.replace(tmp, cpath)
@@ -415,7 +416,7 @@ class Job:
     def finish_B(self, red, redll):
         h = self.h; w = self.work
         try:
-            csrc, ext = ll2c.translate_module(open(redll).read())
+            csrc, ext = ll2c.translate_module(open(redll).read(), {'inline_gep': True} if 'VERIF_LL2C_INLINE_GEP' in h.defines else None)   # opt-in translator option through the harness's defines
         except Exception as e:
             raise Inconclusive('ll2c cannot encode: %s' % e)
         cfile = os.path.join(w, 'h.c')
